@@ -29,7 +29,7 @@ def gen(rng, tier):
         e, info = elfgen.sample_elf(rng, kinds=kinds)
         e.with_shdrs = rng.random() < 0.93
         # name games
-        extra = [b".text", b".tex", b".text.hot", b".symtab", b".dynsy", b".dyn", b"\xff\xfe", b".caf\xc3\xa9", b""]
+        extra = [b".text", b".tex", b".text.hot", b".symtab", b".dynsy", b".dyn", b"\xff\xfe", b".caf\xc3\xa9", b"", b".zdebug_info", b".debug_str", b".zdebug_str"]
         for nm in rng.sample(extra, rng.randrange(0, 4)):
             e.add(nm, 1, rand_bytes(rng, rng.randrange(0, 5)))
         if rng.random() < 0.15 and "symtab" in kinds:       # a duplicate kind: the uniqueness hypothesis fails
@@ -66,6 +66,12 @@ def gen(rng, tier):
                     data = elfgen.patch(data, meta, "shdr", "sh_size", rng.choice([0, 4, 7] if h["sh_type"] == 5 else [0, 8, 15]), k)
         if hs and rng.random() < 0.12:
             data = streamgen.odd_shstrtab(rng, data, meta)
+        ps0 = fileq.py_phdrs(o0, data) if o0 else None
+        if ps0 and rng.random() < 0.25:     # the PT_DYNAMIC segment designates bytes outside the file while the .dynamic section is fine
+            for j, ph in enumerate(ps0):
+                if ph and ph["p_type"] == 2:
+                    mask = 2**32 if meta["cl"] == 32 else 2**64
+                    data = elfgen.patch(data, meta, "phdr", "p_offset", rng.choice([len(data), 2**31, 2**64 - 8, len(data) - 1]) % mask, j)
         dupq = []
         if hs and len(hs) >= 3 and rng.random() < 0.3:
             # the same name string read from two different offsets of the name table (a tail of a longer name, a second
@@ -89,7 +95,7 @@ def gen(rng, tier):
                     dupq = [nm]
         fam = filegen.fam_for(rng, meta["little"])
         names = [s["name"] for s in e.sections] + [b".shstrtab"] + dupq
-        qn = list(dict.fromkeys(dupq + rng.sample(names, min(len(names), 4)) + [b".text", b".tex", b".text.h", b"absent", b"", b".symtab", b".gnu.hash"]))
+        qn = list(dict.fromkeys(dupq + rng.sample(names, min(len(names), 4)) + [b".text", b".tex", b".text.h", b"absent", b"", b".symtab", b".gnu.hash", b".debug_info", b".debug_str"]))
         def utf8(b):
             try:
                 b.decode("utf-8")
